@@ -41,7 +41,8 @@ Record event := mkEv { v_tag : nat; v_val : nat; v_maps : list nat }.
 
 (* ---------- resumable futures ---------- *)
 (* one ShellRequest inside a join! / select!: not yet sent | waiting | fused-dead | finished with a value *)
-Inductive subreq := SQ (sent dead : bool) (tg v ch : nat) | SDone (m : nat).
+Inductive subreq := SQ (sent dead : bool) (tg v ch : nat) | SDone (m : nat)
+| SL (sent : bool) (tg v ch : nat).   (* a legacy-capability ShellRequest: waker refreshed on every poll, never dead *)
 Inductive leaf :=
 | LRun (t : task)
 | LReq (sent dead : bool) (tg v ch x : nat) (k : task)
@@ -209,7 +210,7 @@ Definition was_aborted (cid : nat) (H : heap) : bool :=
 
 (* ---------- drop glue ---------- *)
 Definition sub_drop (q : subreq) (H : heap) : heap :=
-  match q with SQ _ dead _ _ ch => if dead then H else chan_drop_rx ch H | SDone _ => H end.
+  match q with SQ _ dead _ _ ch => if dead then H else chan_drop_rx ch H | SDone _ => H | SL _ _ _ ch => chan_drop_rx ch H end.
 
 Definition DF := 64.
 Definition kill_flag u (H : heap) := utf u (fun tf => mkTF (tf_fin tf) (tf_abort tf) false (tf_joinw tf)) H.
@@ -253,6 +254,12 @@ Definition req_poll (c : nat) (w : waker) (sent dead : bool) (tg v ch : nat) (H 
 Definition sub_poll (c : nat) (w : waker) (q : subreq) (H : heap) : subreq * heap :=
   match q with
   | SDone m => (SDone m, H)
+  | SL sent tg v ch =>
+      let H1 := if sent then H else push_hout (mkEff tg v [] (RLegacy ch)) H in
+      match ch_buf (gch ch H1) with
+      | m :: _ => (SDone m, chan_drop_rx ch H1)
+      | [] => (SL true tg v ch, chan_reg ch w H1)
+      end
   | SQ sent dead tg v ch =>
       match req_poll c w sent dead tg v ch H with
       | (Some m, _, _, H') => (SDone m, H')
@@ -308,6 +315,9 @@ Definition poll_body (F : rtfuns) (c : nat) (w : waker) (fs : fstate) (H : heap)
     | TBoth tg1 e1 x1 tg2 e2 x2 k =>
         let (ch1, H1) := new_chan H in let (ch2, H2) := new_chan H1 in
         rpoll F c w (mkF en (LBoth (SQ false false tg1 (eval en e1) ch1) (SQ false false tg2 (eval en e2) ch2) x1 x2 k) st) H2
+    | TBothL tg1 e1 x1 tg2 e2 x2 k =>
+        let (ch1, H1) := new_chan H in let (ch2, H2) := new_chan H1 in
+        rpoll F c w (mkF en (LBoth (SL false tg1 (eval en e1) ch1) (SQ false false tg2 (eval en e2) ch2) x1 x2 k) st) H2
     | TRace tg1 e1 tg2 e2 x k =>
         let (ch1, H1) := new_chan H in let (ch2, H2) := new_chan H1 in
         rpoll F c w (mkF en (LRace (SQ false false tg1 (eval en e1) ch1) (SQ false false tg2 (eval en e2) ch2) x k) st) H2
@@ -366,11 +376,11 @@ Definition poll_body (F : rtfuns) (c : nat) (w : waker) (fs : fstate) (H : heap)
     let (a', H1) := sub_poll c w a H in
     match a' with
     | SDone m => go_env (setv x m en) k (sub_drop b H1)
-    | SQ _ _ _ _ _ =>
+    | SQ _ _ _ _ _ | SL _ _ _ _ =>
       let (b', H2) := sub_poll c w b H1 in
       match b' with
       | SDone m => go_env (setv x m en) k (sub_drop a' H2)
-      | SQ _ _ _ _ _ => Some (Pend (mkF en (LRace a' b' x k) st), H2)
+      | SQ _ _ _ _ _ | SL _ _ _ _ => Some (Pend (mkF en (LRace a' b' x k) st), H2)
       end
     end
   | LHost cid meff mev k =>
